@@ -75,7 +75,7 @@ PROPS = {
         "projection": "per tick: heartbeat (request id, heartbeat id) or recycle; echo of the peer's heartbeat",
         "mismatch_is_input": True,
         "timeout": {"quick": 1500, "thorough": 6000},
-        "level_text": "Coq theorems on the keepalive loop (Model/Keepalive.v: check, ping, handlePong, handlePing echo, the reset by a successful recovery) with time supplied by the environment: every tick while connected, not recovering and not timed out sends one heartbeat whose request id is fresh and equals the heartbeat id of its body; the peer's heartbeat request is echoed (TCP); a peer that stopped answering is recycled at the first tick later than lastPong+timeout, i.e. within interval+timeout; and for timeout >= interval a peer that answers every heartbeat before the next tick is never recycled, from any state with no awaited heartbeat or a recent pong - including after any recovery. Timing hypotheses are explicit premises (healthy schedule). Tie: the real loop at 100 ms / 250 ms over TCP and WebSocket against always/never/stop-after-n/late/after-recovery peers; measured tick and pong times are replayed by the model tick by tick; latency bounds measured (direct oracle). C15_recovered_like_fresh: a recovery leaves the keepalive exactly where Dial leaves it (KRecovered refreshes the last-answer time; finding F27 repaired by 0c8c1ad, witness C15_old_rule_refuted). Scenarios added: a peer answering every heartbeat after 150 ms on the first connection and after a recovery; a keepalive verdict formed during a recovery and acted on after it (ka.after-check gate; finding F28 repaired by 54b0482).",
+        "level_text": "Coq theorems on the keepalive loop (Model/Keepalive.v: check, ping, handlePong, handlePing echo, the reset by a successful recovery) with time supplied by the environment: every tick while connected, not recovering and not timed out sends one heartbeat whose request id is fresh and equals the heartbeat id of its body; the peer's heartbeat request is echoed (TCP); a peer that stopped answering is recycled at the first tick later than lastPong+timeout, i.e. within interval+timeout; and for timeout >= interval a peer that answers every heartbeat before the next tick is never recycled, from any state with no awaited heartbeat or a recent pong - including after any recovery. Timing hypotheses are explicit premises (healthy schedule). Tie: the real loop at 100 ms / 250 ms over TCP and WebSocket against always/never/stop-after-n/late/after-recovery peers; measured tick and pong times are replayed by the model tick by tick; latency bounds measured (direct oracle). C15_recovered_like_fresh: a recovery leaves the keepalive exactly where Dial leaves it (KRecovered refreshes the last-answer time; finding F27 repaired by 0c8c1ad, witness C15_old_rule_refuted). Scenarios added: a peer answering every heartbeat after 150 ms on the first connection and after a recovery; a keepalive verdict formed during a recovery and acted on after it (ka.after-check gate; finding F28 repaired by 54b0482). Full strength: C15_answering_peer_never_declared_dead - every heartbeat answered in order within lat, lat + interval <= timeout, ticks at most interval apart, any recoveries: never a recycle (C15_no_false_positive is the special case lat < interval).",
         "level_note": "Trusted: kernel, extraction, harness, ka.tick hook. Real time is measured, not proved: scheduling slack of 300 ms in the detection bound; a tick that coincides with a recovery in progress is outside the replayed scenarios.",
         "assumptions": ["time.Ticker ticks about every interval", "clock monotonic"],
         "modelled": "client.keepalive (check, ping), handlePong, handlePing, counter/heartbeat reset on recovery",
